@@ -8,6 +8,7 @@ import (
 	"go/constant"
 	"go/token"
 	"go/types"
+	"os"
 	"sort"
 	"strings"
 
@@ -189,41 +190,40 @@ func (f *Frame) blockPos(b *ssa.BasicBlock) token.Pos {
 
 // loopKey: "range <expr>" or "for <cond>" from the source.
 func (f *Frame) loopKey(li *loopInfo) string {
-	var pos token.Pos
-	// find a position inside the loop statement: the header's first positioned instruction or its If
-	for _, in := range li.header.Instrs {
-		switch in.(type) {
-		case *ssa.Phi, *ssa.DebugRef:
-			continue
-		}
-		if in.Pos().IsValid() {
-			pos = in.Pos()
-			break
-		}
-	}
-	if !pos.IsValid() {
-		for bi := range li.blocks {
-			if p := f.blockPos(f.fn.Blocks[bi]); p.IsValid() && (!pos.IsValid() || p < pos) {
-				pos = p
+	// the loop statement is the innermost for/range statement that contains every positioned instruction of the loop
+	var lo, hi token.Pos
+	for bi := range li.blocks {
+		for _, in := range f.fn.Blocks[bi].Instrs {
+			switch in.(type) {
+			case *ssa.Phi, *ssa.DebugRef:
+				continue
+			}
+			p := in.Pos()
+			if !p.IsValid() {
+				continue
+			}
+			if !lo.IsValid() || p < lo {
+				lo = p
+			}
+			if p > hi {
+				hi = p
 			}
 		}
 	}
-	if !pos.IsValid() {
+	if !lo.IsValid() {
 		return fmt.Sprintf("#%d", li.ordinal)
 	}
-	fname := f.p.fset.Position(pos).Filename
-	file := f.p.files[fname]
+	file := f.p.files[f.p.fset.Position(lo).Filename]
 	if file == nil {
 		return fmt.Sprintf("#%d", li.ordinal)
 	}
-	// innermost for/range statement whose body/cond region contains pos; prefer statement whose header contains pos
 	var best ast.Node
 	ast.Inspect(file, func(n ast.Node) bool {
 		if n == nil {
 			return false
 		}
-		if n.Pos() > pos || n.End() < pos {
-			return n.Pos() <= pos
+		if n.Pos() > lo || n.End() < hi {
+			return false
 		}
 		switch n.(type) {
 		case *ast.ForStmt, *ast.RangeStmt:
@@ -401,7 +401,7 @@ func (f *Frame) locOf(v ssa.Value) (Loc, bool) {
 		case *types.Slice:
 			x := f.val(a.X)
 			comp := f.vc.regMem(xt.Elem())
-			return Loc{kind: "elem", comp: comp, base: "(s-ref " + x.T + ")", idx: "(+ (s-off " + x.T + ") " + f.val(a.Index).T + ")", typ: xt.Elem()}, true
+			return Loc{kind: "elem", comp: comp, base: "(s-ref " + x.T + ")", idx: "(sidx (s-off " + x.T + ") " + f.val(a.Index).T + ")", typ: xt.Elem()}, true
 		case *types.Pointer:
 			arr, ok := xt.Elem().Underlying().(*types.Array)
 			if !ok {
@@ -467,7 +467,7 @@ func (f *Frame) safe(kind string, pos token.Pos, text string, cond string) {
 	}
 	if f.safety {
 		lbl := f.label(kind, text)
-		o := &Obligation{Name: f.rootKey() + "#safe:" + lbl, Kind: "safe", Tags: f.tags, Guard: f.guard, Cond: cond, Pos: f.p.posString(pos)}
+		o := &Obligation{Name: f.rootKey() + "#safe:" + lbl, Kind: "safe", Tags: f.safeTags(), Guard: f.guard, Cond: cond, Pos: f.p.posString(pos)}
 		f.vc.addObl(o)
 		f.classHook(o)
 	}
@@ -478,6 +478,9 @@ func (f *Frame) safe(kind string, pos token.Pos, text string, cond string) {
 func (f *Frame) assertObl(kind, label string, tags []string, guard, cond string, pos string) {
 	if len(tags) == 0 {
 		tags = f.tags
+		if kind == "lock" || kind == "lockset" {
+			tags = f.safeTags()
+		}
 	}
 	o := &Obligation{Name: f.oblName(kind, label), Kind: kind, Tags: tags, Guard: guard, Cond: cond, Pos: pos}
 	f.vc.addObl(o)
@@ -837,6 +840,9 @@ func (f *Frame) loopWrites(li *loopInfo) ([]string, bool) {
 			cs, a := f.instrWrites(in)
 			if a {
 				all = true
+				if os.Getenv("GOVC_DEBUG") != "" {
+					fmt.Fprintf(os.Stderr, "loop %s in %s: havoc-all because of %s\n", li.key, f.key, in)
+				}
 			}
 			for _, c := range cs {
 				set[c] = true
